@@ -161,6 +161,14 @@ func (ex *Exec) applyContract(st *State, ct *Contract, f *types.Func, recv Val, 
 		ex.obls[len(ex.obls)-1].Note = r.Text
 		st.assume(g)
 	}
+	// termination of recursion (direct, or through an interface method this function implements)
+	if ct.FDecreases != nil && ex.ct.FDecreases != nil && ex.entry != nil &&
+		(ct.Key == ex.ct.Key || ct.Key == ex.ct.Implements || (ct.Implements != "" && ct.Implements == ex.ct.Implements)) {
+		ex.cur = st
+		m1 := oldEnv.evalTerm(ct.FDecreases)
+		m0 := ex.cenv(ex.entry, ex.fi.Body.Lbrace+1).evalTerm(ex.ct.FDecreases)
+		ex.oblige(st, "decreases", siteName+"/decreases", And(Le(Zero, m1), Lt(m1, m0)), call)
+	}
 	// shapes required by the callee
 	for k, v := range ct.Opts {
 		if strings.HasPrefix(k, "shape ") {
